@@ -6,15 +6,14 @@ reachable section table `run ops` (any history of new_section / append / set_vir
 flatten / relocate operations) or for every table whatsoever.  `Spec/Sections.lean` holds the meaning
 (`OrderSorted`, `NoOverlap`, `OffsetsMonotone`, `Aligned`, `idealOffsets`, `idealEnd`, `codeSizeSpec`, `imageByte`, `fitsB`).
 
-Not proved (tested on every run by the monitors `flattenGood` / `relocGood` over the real code's answers):
- * `code_size()` after flatten EQUALS the end of the last section (proved: it bounds every section end, equals the ideal
-   size and the size before the call) — see `flatten_code_size_partial`;
- * the size clause of `relocate_to_base` (estimate ≥ final);
- * `copy_section_data`, `JitRuntime::_add` copy loop (modelled, corresponded, not proved).
+Not proved here: byte patching of relocations (C04's subject); the allocator behind `JitRuntime::add` (C09).
 -/
 import AsmjitVerif.Lemmas.SectionsRun
 import AsmjitVerif.Lemmas.SectionsSize
 import AsmjitVerif.Lemmas.SectionsCopy
+import AsmjitVerif.Lemmas.SectionsBuild
+import AsmjitVerif.Lemmas.SectionsJit
+import AsmjitVerif.Lemmas.SectionsRed
 namespace AsmjitVerif.Sections
 
 /-- every reachable table is strictly sorted by (order, id), its ids are below the section count, `.text` is first and
@@ -58,34 +57,43 @@ theorem flatten_layout (ops : List Op) (hok : (flatten (run ops)).2 = .ok ()) :
   rw [if_pos hc]
   exact ⟨hA, hs.1, hs.2.1, hs.2.2, hB, hC⟩
 
-/-- FULL STATEMENT (not proved): `codeSize post = lastEnd post ∧ codeSize post = imageEnd post`.
-    Proved: the reported size is the ideal size, is what `code_size()` said before `flatten` (the estimate is stable —
-    defect #17 broke exactly this), and no section ends behind it.  Missing: that the bound is attained by the last section. -/
-theorem flatten_code_size_partial (ops : List Op) (hok : (flatten (run ops)).2 = .ok ()) :
+/-- the reported size after a successful `flatten` of any reachable table is the ideal size, is what `code_size()` said
+    before the call (the estimate is stable — defect #17 broke exactly this), is the end of the last section by order with
+    non-zero real size, is the end of the very last section, is the largest section end, and no section ends behind it -/
+theorem flatten_code_size (ops : List Op) (hok : (flatten (run ops)).2 = .ok ()) :
     codeSize (flatten (run ops)).1 = idealEnd 0 (run ops).secs ∧
     codeSize (flatten (run ops)).1 = codeSize (run ops) ∧
+    codeSize (flatten (run ops)).1 = endOfLastNonEmpty 0 (flatten (run ops)).1.secs ∧
+    codeSize (flatten (run ops)).1 = lastEnd (flatten (run ops)).1.secs ∧
+    codeSize (flatten (run ops)).1 = imageEnd (flatten (run ops)).1.secs ∧
     ∀ b ∈ (flatten (run ops)).1.secs, b.offset + b.realSize ≤ codeSize (flatten (run ops)).1 := by
   have hfit := (flatten_ok_iff ops).mp hok
-  have hc := (flattenCheck_iff 0 (run ops).secs (run_inv ops).pre (by unfold U64; omega)).mpr hfit
-  obtain ⟨_, _, _, hD⟩ := assign_good 0 (run ops).secs (run_inv ops).pre hfit
-  have hE := (assign_idealEnd 0 (run ops).secs (run_inv ops).pre hfit).1
+  have hpre := (run_inv ops).pre
+  have hc := (flattenCheck_iff 0 (run ops).secs hpre (by unfold U64; omega)).mpr hfit
+  obtain ⟨_, _, _, hD⟩ := assign_good 0 (run ops).secs hpre hfit
+  have hE := (assign_idealEnd 0 (run ops).secs hpre hfit).1
+  have hN := assign_ends 0 (run ops).secs hpre hfit
+  have hI := assign_imageEnd (run ops).secs hpre hfit
+  have hne : (run ops).secs ≠ [] := by
+    obtain ⟨t, rest, h, _⟩ := (run_inv ops).shape
+    rw [h]; simp
   have hpost : Pre 0 (assign 0 (run ops).secs) := (InvS.transfer (assign_keys 0 _) (run_inv ops)).pre
-  have h1 : codeSize (flatten (run ops)).1 = idealEnd 0 (run ops).secs := by
+  have hsecs : (flatten (run ops)).1.secs = assign 0 (run ops).secs := by
     unfold flatten; rw [if_pos hc]
+  have h1 : codeSize (flatten (run ops)).1 = idealEnd 0 (run ops).secs := by
     unfold codeSize
-    show codeSizeOf (assign 0 (run ops).secs) = _
-    rw [codeSizeOf_eq_spec _ hpost]
+    rw [hsecs, codeSizeOf_eq_spec _ hpost]
     unfold codeSizeSpec
     rw [hE, if_pos hfit]
   have h2 : codeSize (run ops) = idealEnd 0 (run ops).secs := by
     unfold codeSize
-    rw [codeSizeOf_eq_spec _ (run_inv ops).pre]
+    rw [codeSizeOf_eq_spec _ hpre]
     unfold codeSizeSpec
     rw [if_pos hfit]
-  refine ⟨h1, by rw [h1, h2], ?_⟩
+  refine ⟨h1, by rw [h1, h2], by rw [h1, hsecs, hN.1], by rw [h1, hsecs, hN.2 hne], by rw [h1, hsecs, hI], ?_⟩
   intro b hb
   rw [h1]
-  unfold flatten at hb; rw [if_pos hc] at hb
+  rw [hsecs] at hb
   exact hD b hb
 
 /-- `code_size()` of every reachable table (flattened or not) is the ideal size, saturated at SIZE_MAX when that does not
@@ -99,7 +107,7 @@ theorem flatten_again_same_size (ops : List Op) (hok : (flatten (run ops)).2 = .
     (flatten (run (ops ++ [Op.flatten]))).2 = .ok () ∧
     codeSize (flatten (run (ops ++ [Op.flatten]))).1 = codeSize (run ops) := by
   have hrun : run (ops ++ [Op.flatten]) = (flatten (run ops)).1 := by simp [run, step]
-  have h1 := flatten_code_size_partial ops hok
+  have h1 := flatten_code_size ops hok
   have hfit := (flatten_ok_iff ops).mp hok
   have hc := (flattenCheck_iff 0 (run ops).secs (run_inv ops).pre (by unfold U64; omega)).mpr hfit
   have hE := (assign_idealEnd 0 (run ops).secs (run_inv ops).pre hfit).1
@@ -109,7 +117,7 @@ theorem flatten_again_same_size (ops : List Op) (hok : (flatten (run ops)).2 = .
     show idealEnd 0 (assign 0 (run ops).secs) < U64
     rw [hE]; exact hfit
   refine ⟨hok2, ?_⟩
-  have h2 := flatten_code_size_partial (ops ++ [Op.flatten]) hok2
+  have h2 := flatten_code_size (ops ++ [Op.flatten]) hok2
   rw [h2.2.1, hrun, h1.2.1]
 
 /-- `copy_flattened_data` never writes outside the destination — every table (flattened or not), every destination size,
@@ -137,6 +145,152 @@ theorem copy_after_flatten_exact (ops : List Op) (hok : (flatten (run ops)).2 = 
       ∀ k, k < dst.length → d[k]? = some (imageByte (flatten (run ops)).1.secs dst.length flags (fun i => dst.getD i 0) k) :=
   copyFlattened_exact _ dst flags hfit (flatten_layout ops hok).2.1
 
+/-- `copy_section_data` never writes outside the destination -/
+theorem copySection_no_fault (h : Holder) (dst : List Byte) (id : Nat) (flags : CopyFlags) :
+    copySection h dst id flags ≠ .fault := copySection_no_fault' h dst id flags
+
+/-- `copy_section_data` of a valid section: refused (kInvalidArgument) when the destination is smaller than the buffer;
+    otherwise the result has the destination's length and is, byte for byte, the section's buffer followed by zeros
+    (kPadSectionBuffer) or by the old content -/
+theorem copySection_exact (h : Holder) (dst : List Byte) (id : Nat) (flags : CopyFlags) (s : Section)
+    (hv : h.validId id = true) (hs : findSec h.secs id = some s) :
+    (dst.length < s.bufSize → copySection h dst id flags = .error .invalidArgument) ∧
+    (s.bufSize ≤ dst.length → ∃ d, copySection h dst id flags = .ok d ∧ d.length = dst.length ∧
+        ∀ k, k < dst.length → d[k]? = some (sectionImageByte s flags (fun i => dst.getD i 0) k)) :=
+  copySection_spec' h dst id flags s hv hs
+
+/-- the size estimated before relocation is never smaller than the size after it: for every program built by
+    new_section / data / virtual-size / address-table / call-abs operations (`BuildOK`: no flatten or relocate inside,
+    the virtual size of `.addrtab` itself is left to `add_address_to_address_table`; fewer than 2^60 operations so that
+    8 bytes per entry cannot wrap), relocated to any base, directly or after `flatten` (the `JitRuntime::_add` order) -/
+theorem estimate_ge_final (ops : List Op) (hb : BuildOK init ops) (hl : ops.length < 2 ^ 60) (base : Nat) :
+    codeSize (relocate (run ops) base).1 ≤ codeSize (run ops) ∧
+    codeSize (relocate (flatten (run ops)).1 base).1 ≤ codeSize (flatten (run ops)).1 := by
+  have hat := build_addrTabOK ops hb hl
+  have hinv := run_inv ops
+  refine ⟨relocate_code_size_le _ hinv hat base, ?_⟩
+  have hinv' : InvS (flatten (run ops)).1.secs := by
+    have := run_inv (ops ++ [Op.flatten])
+    simpa [run, step] using this
+  exact relocate_code_size_le _ hinv' (flatten_addrTabOK _ hinv hat) base
+
+/-- `RelocationSummary::code_size_reduction` never overshoots: in the `JitRuntime::_add` order (build, flatten, relocate to
+    any base) final `code_size()` + reported reduction ≤ estimate, i.e. the `estimate - reduction` bytes that `_add` keeps
+    after shrinking the span still hold the whole final image -/
+theorem reduction_never_overshoots (ops : List Op) (hb : BuildOK init ops) (hl : ops.length < 2 ^ 60)
+    (hok : (flatten (run ops)).2 = .ok ()) (base : Nat) :
+    codeSize (relocate (flatten (run ops)).1 base).1 + (relocate (flatten (run ops)).1 base).2.2 ≤ codeSize (flatten (run ops)).1 := by
+  have hinv : InvS (flatten (run ops)).1.secs := by
+    have := run_inv (ops ++ [Op.flatten])
+    simpa [run, step] using this
+  have hat := flatten_addrTabOKv _ (run_inv ops) (build_addrTabOKv ops hb hl)
+  have hfit := (flatten_ok_iff ops).mp hok
+  have hc := (flattenCheck_iff 0 (run ops).secs (run_inv ops).pre (by unfold U64; omega)).mpr hfit
+  have hE := (assign_idealEnd 0 (run ops).secs (run_inv ops).pre hfit).1
+  have hns : idealEnd 0 (flatten (run ops)).1.secs < U64 := by
+    unfold flatten; rw [if_pos hc]
+    show idealEnd 0 (assign 0 (run ops).secs) < U64
+    rw [hE]; exact hfit
+  exact relocate_reduction_bound _ hinv hat base hns
+
+/-- state form of the same: whenever no entry has a slot yet and `.addrtab` reserves 8 bytes per entry -/
+theorem estimate_ge_final_state (h : Holder) (hinv : InvS h.secs) (hat : AddrTabOK h) (base : Nat) :
+    codeSize (relocate h base).1 ≤ codeSize h := relocate_code_size_le h hinv hat base
+
+/-- the copy loop of `JitRuntime::_add` over a list of sections that the span holds (`offset + real_size ≤ size`) and
+    that do not overlap writes exactly what `copy_flattened_data(kPadSectionBuffer)` writes over the same list, and that is
+    the specified image byte for byte -/
+theorem installed_image_exact_list (l : List Section) (dst : List Byte)
+    (hfit : ∀ s ∈ l, s.offset + s.realSize ≤ dst.length) (hno : NoOverlap l) :
+    ∃ d, jitCopy l dst = some d ∧ copyFlattenedSecs l dst { padSection := true, padTarget := false } = .ok d ∧
+      d.length = dst.length ∧
+      ∀ k, k < dst.length → d[k]? = some (imageByte l dst.length { padSection := true, padTarget := false } (fun i => dst.getD i 0) k) := by
+  obtain ⟨d, e', h1, h2⟩ := jitCopy_eq_copyLoop l dst 0 hfit
+  have hfits : fitsB dst.length l = true := by
+    unfold fitsB
+    rw [List.all_eq_true]
+    intro s hs
+    have := hfit s hs
+    have : s.bufSize ≤ s.realSize := by unfold Section.realSize; omega
+    simp; omega
+  obtain ⟨d', hd', hlen, hget⟩ := copyFlattenedSecs_exact' l dst { padSection := true, padTarget := false } hfits hno
+  have hdd : d' = d := by
+    unfold copyFlattenedSecs at hd'
+    rw [h1] at hd'
+    simpa using hd'.symm
+  subst hdd
+  exact ⟨d', h2, hd', hlen, hget⟩
+
+/-- what the copy loop of `JitRuntime::_add` installs (sections walked in ID order, `code->_sections`) into a span that
+    holds every section is exactly what `copy_flattened_data(kPadSectionBuffer)` (sections walked BY ORDER) produces for
+    the same state, and that is the specified image byte for byte; no write leaves the span (`jitCopy ≠ none`) -/
+theorem installed_image_exact (h : Holder) (hinv : InvS h.secs) (hno : NoOverlap h.secs) (dst : List Byte)
+    (hfit : ∀ s ∈ h.secs, s.offset + s.realSize ≤ dst.length) :
+    ∃ d, jitCopy (byId h.secs) dst = some d ∧
+      copyFlattened h dst { padSection := true, padTarget := false } = .ok d ∧ d.length = dst.length ∧
+      ∀ k, k < dst.length → d[k]? = some (imageByte h.secs dst.length { padSection := true, padTarget := false } (fun i => dst.getD i 0) k) := by
+  obtain ⟨d, h1, h2⟩ := jitCopy_byId_eq h.secs hinv dst hfit hno
+  obtain ⟨d', _, h3, hlen, hget⟩ := installed_image_exact_list h.secs dst hfit hno
+  have : d' = d := by rw [h2] at h3; cases h3; rfl
+  subst this
+  exact ⟨d', h1, h2, hlen, hget⟩
+
+/-- the `JitRuntime::_add` sequence on any built program: flatten, relocate to any base, copy into a zeroed span of
+    any size `n ≥` the estimate: the installed bytes are the flattened image of the RELOCATED state -/
+theorem installed_image_after_relocate (ops : List Op) (hb : BuildOK init ops) (hl : ops.length < 2 ^ 60)
+    (hok : (flatten (run ops)).2 = .ok ()) (base n : Nat) (hn : codeSize (flatten (run ops)).1 ≤ n) :
+    ∃ d, jitCopy (byId (relocate (flatten (run ops)).1 base).1.secs) (zeros n) = some d ∧
+      copyFlattened (relocate (flatten (run ops)).1 base).1 (zeros n) { padSection := true, padTarget := false } = .ok d := by
+  have hinv : InvS (flatten (run ops)).1.secs := by
+    have := run_inv (ops ++ [Op.flatten])
+    simpa [run, step] using this
+  have hat := flatten_addrTabOK _ (run_inv ops) (build_addrTabOK ops hb hl)
+  have hshr := relocate_shrinks (flatten (run ops)).1 hat base
+  have hinv2 := InvS.transfer (relocate_keys (flatten (run ops)).1 base) hinv
+  have hno2 := noOverlap_of_shrinks hshr (flatten_layout ops hok).2.1
+  have hbound := (flatten_code_size ops hok).2.2.2.2.2
+  obtain ⟨d, h1, h2, _, _⟩ := installed_image_exact (relocate (flatten (run ops)).1 base).1 hinv2 hno2 (zeros n) (by
+    intro s' hs'
+    obtain ⟨s, hs, hss⟩ := hshr.mem_right s' hs'
+    have := hbound s hs
+    rw [zeros_length, hss.2.2]
+    have := hss.2.1
+    omega)
+  exact ⟨d, h1, h2⟩
+
+/-- the whole (repaired) `JitRuntime::_add` on any built program and any span address never takes a write outside the span
+    (the model's `none`): it either reports an error (kTooLarge, kNoCodeGenerated, a relocation error) or installs bytes -/
+theorem jitAdd_no_fault (ops : List Op) (hb : BuildOK init ops) (hl : ops.length < 2 ^ 60) (base : Nat) :
+    (jitAdd (run ops) base).2 ≠ none := by
+  unfold jitAdd
+  cases hf : flatten (run ops) with
+  | mk h1 r =>
+    dsimp only
+    cases r with
+    | error e => simp
+    | ok u =>
+      cases u
+      dsimp only
+      split
+      · simp
+      · cases hr : relocate h1 base with
+        | mk h2 rr =>
+          obtain ⟨r2, red⟩ := rr
+          dsimp only
+          cases r2 with
+          | error e => simp
+          | ok u2 =>
+            cases u2
+            dsimp only
+            split
+            · simp
+            · have hok : (flatten (run ops)).2 = .ok () := by rw [hf]
+              obtain ⟨d, hd, _⟩ := installed_image_after_relocate ops hb hl hok base (codeSize (flatten (run ops)).1) (Nat.le_refl _)
+              rw [hf, hr] at hd
+              dsimp only at hd
+              rw [hd]
+              simp
+
 /-! ### non-vacuity and the defects of the pinned code, in Lean -/
 
 /-- `.text` 1 byte, `.a` empty align 16, `.b` 1 byte align 16 -/
@@ -153,6 +307,20 @@ example : copyFlattened (flatten (run ex17)).1 (List.replicate 16 0xAA) { padSec
     = .error .invalidArgument := by decide
 /-- order: a later section with a smaller order value goes first; equal orders keep creation order -/
 example : (run [.newSection "x" 1 5, .newSection "y" 1 (-1), .newSection "z" 1 5]).secs.map (·.id) = [0, 2, 1, 3] := by decide
+
+/-- a far call and a near jump from `.text`: two address-table entries reserved, one used at base 0x10000 -/
+def exCall : List Op := [.emitCall 0 false 0x7fff123456789abc, .emitCall 0 true 0x1000]
+
+example : BuildOK init exCall := ⟨trivial, trivial, trivial⟩
+example : codeSize (flatten (run exCall)).1 = 32 := by decide
+example : codeSize (relocate (flatten (run exCall)).1 0x10000).1 = 24 ∧ (relocate (flatten (run exCall)).1 0x10000).2.2 = 8 := by decide
+example : (flatten (run exCall)).2.toBool = true := by decide
+example : (jitCopy (byId (relocate (flatten (run exCall)).1 0x10000).1.secs) (zeros 32)).isSome = true := by decide
+example : copySection (run ex17) (List.replicate 3 0xAA) 2 { padSection := true, padTarget := false } = .ok [0xCC, 0, 0] := by decide
+example : copySection (run ex17) [] 2 { padSection := true, padTarget := false } = .error .invalidArgument := by decide
+/-- repaired `JitRuntime::_add` (fixes/C10-4.patch): only an unused address-table entry → nothing to install -/
+example : (jitAdd (run [.addAddress 0x1234]) 0x10000).2.isSome = true ∧
+    (match (jitAdd (run [.addAddress 0x1234]) 0x10000).2 with | some (.error .noCodeGenerated) => true | _ => false) = true := by decide
 
 /-- defect #17 (pinned second loop of `flatten`): the empty section `.a` receives the alignment gap as virtual size, so
     `code_size()` changes from 17 to 33 and the table stops being a fixpoint -/
